@@ -631,7 +631,7 @@ static void myth_sched_loop(void)
       //next_run=myth_steal_from_others(env);
       next_run=g_myth_steal_func(env->rank);
     }
-    if (!next_run) {
+    if (!next_run && env->exit_flag != 1) {
       MYTH_VERIF_IDLE(mythv_p_sched_idle, env->rank);
     }
     if (next_run)
